@@ -13,7 +13,7 @@ EXPLANATION = (
     'is reachable from serve(); (R4) every loop that reads the input has an exit on the zero/None/Err outcome of that read, and read_frame maps '
     'a clean EOF to Ok(None); (R5) on every path of handle_put to a reply frame a take(len)-bounded consumer ran; Get/Delete/List/Hello consume nothing '
     'beyond their frame; (R6) errors surface as Err -> non-zero exit; (R7) in serve(), from a decoded request the next read_frame is reachable only past a non-Put edge of a switch on the request, handle_put, or an inline take(put.len) consumer, so no reply path leaves Put content in the stream. A read-ahead buffer (BufReader) placed over the stream parameter inside a handler is reported: what it buffers beyond the content is lost with it. Assumes ciborium/std do not panic or over-allocate on hostile bytes. '
-    'R1 also: a prologue that is parsed (tag + revision) instead of compared whole is reported when the parsed value is bounded on one side only, and not decided otherwise. R4 reads the clean-EOF test as an equality or as a match on the error kind (kinds that end a stream). Not decided: reply equality with a fresh session (runtime streams).')
+    'R3: String::truncate / split_off / insert / remove / drain / replace_range and str::split_at are panic-capable (char boundary); a cut at a constant offset with no is_char_boundary in the function is reported. R1 also: a prologue that is parsed (tag + revision) instead of compared whole is reported when the parsed value is bounded on one side only, and not decided otherwise. R4 reads the clean-EOF test as an equality or as a match on the error kind (kinds that end a stream). Not decided: reply equality with a fresh session (runtime streams).')
 ASSUMPTIONS = ['ciborium 0.2 and std do not panic or over-allocate on hostile bytes (recursion limit, incremental string reads)']
 
 
